@@ -432,11 +432,11 @@ def cinput(aa, ds, objs, settings, inp, npix):
             f"in_objs := {clist(los)}; in_use_wt := {cbool(inp['use_w_tilde'])}; "
             f"in_eps := {cq(frac(st.no_regularization_add_to_curvature_diag_value))} |}}")
 
-def oracle(aa, ds, objs, settings, pre_use_wt):
+def oracle_parts(aa, ds, objs, settings, pre_use_wt):
     inv = aa.Inversion(dataset=ds, linear_obj_list=objs, settings=settings(), preloads=aa.Preloads(use_w_tilde=pre_use_wt))
     crm = np.array(inv.curvature_reg_matrix, dtype=float).copy(); dv = np.array(inv.data_vector, dtype=float).copy()
     rec = call_res(lambda: np.array(inv.reconstruction, dtype=float))
-    solve = f"(({qm(crm)}, {qv(dv)}), {cresq(rec, qv)})"
+    solve = [f"(({qm(crm)}, {qv(dv)}), {cresq(rec, qv)})"]
     ldc, ldr = [], []
     from autoarray.inversion.regularization.abstract import AbstractRegularization
     if inv.has(cls=AbstractRegularization):
@@ -446,7 +446,11 @@ def oracle(aa, ds, objs, settings, pre_use_wt):
         rr = np.array(inv.regularization_matrix_reduced, dtype=float)
         r = call_res(lambda: float(inv.log_det_regularization_matrix_term))
         ldr.append(f"({qm(rr)}, {cresq(r, lambda x: cq(frac(x)))})")
-    return f"{{| or_solve := [{solve}]; or_ldc := {clist(ldc)}; or_ldr := {clist(ldr)} |}}"
+    return solve, ldc, ldr
+def oracle_str(*parts):
+    return (f"{{| or_solve := {clist([x for p in parts for x in p[0]])}; or_ldc := {clist([x for p in parts for x in p[1]])}; "
+            f"or_ldr := {clist([x for p in parts for x in p[2]])} |}}")
+def oracle(aa, ds, objs, settings, pre_use_wt): return oracle_str(oracle_parts(aa, ds, objs, settings, pre_use_wt))
 
 # ----------------------------------------------------------------------------------------------- cases
 class Track:
@@ -565,24 +569,38 @@ def run_sets(inp):
         inp1 = dict(inp); inp1["objs"] = [dict(o, seed=o["seed"] + 1 + int(rs.randint(1000))) if o["k"] == "f" else o for o in inp["objs"]]
         objs1 = [a if o["k"] == "m" else b for o, a, b in zip(inp["objs"], objs, build(inp1)[2])]
     own0 = slot_values(aa, ds, objs, settings, inp, pre_use_wt, inp["chain"]) if inp["chain"] else {}
-    inv0 = aa.Inversion(dataset=ds, linear_obj_list=objs, settings=settings(), preloads=aa.Preloads(use_w_tilde=pre_use_wt, **own0))
+    npix = ds.data.shape[0]
+    pre_own0 = aa.Preloads(use_w_tilde=pre_use_wt, **own0)
+    own0_coq = cstore(pre_own0, npix); own1_coq = cstore(aa.Preloads(use_w_tilde=pre_use_wt), npix)
+    inv0 = aa.Inversion(dataset=ds, linear_obj_list=objs, settings=settings(), preloads=pre_own0)
     inv1 = aa.Inversion(dataset=ds1, linear_obj_list=objs1, settings=settings(), preloads=aa.Preloads(use_w_tilde=pre_use_wt))
+    def cmd_map(d_, o_):
+        """value / exception of the MAPPING class's _curvature_matrix_mapper_diag (a kernel of the model)"""
+        if wt0: return "(Raise OtherException)"
+        r = call_res(lambda: aa.Inversion(dataset=d_, linear_obj_list=o_, settings=settings.mk(),
+                                          preloads=aa.Preloads(use_w_tilde=pre_use_wt))._curvature_matrix_mapper_diag)
+        return "(Ok [])" if (r[0] == "ok" and r[1] is None) else cresq(r, qm)
+    cmdm0, cmdm1 = cmd_map(ds, objs), cmd_map(ds1, objs1)
+    C = ds.convolver.convolve_mapping_matrix(mapping_matrix=np.eye(npix))
+    orc = oracle_str(oracle_parts(aa, ds, objs, settings.mk, pre_use_wt), oracle_parts(aa, ds1, objs1, settings.mk, pre_use_wt))
+    cin0 = cinput(aa, ds, objs, settings, inp, npix); cin1 = cinput(aa, ds1, objs1, settings, inp, npix)
     fit0 = aa.m.MockFitImaging(dataset=ds, inversion=inv0, noise_map=ds.noise_map)
     fit1 = aa.m.MockFitImaging(dataset=ds1, inversion=inv1, noise_map=ds1.noise_map)
     fp_in = input_fingerprints(ds, objs, settings())
     why = ""
     before0 = [observe(inv0, q) for q in inp["reads0"]]
     pre = aa.Preloads()
-    raised = []
-    for name in inp["setters"]:
+    raised = []; raised_idx = []
+    for i_, name in enumerate(inp["setters"]):
         r = call_res(lambda: getattr(pre, name)(fit0, fit1))
         if r[0] != "ok":
-            raised.append((name, r[1]))
+            raised.append((name, r[1])); raised_idx.append((i_, r[1]))
             # known, outside C15 (fixes/C15_set_curvature_matrix_alias.md): the MAPPING class's _curvature_matrix_mapper_diag indexes
             # one mapper's matrix with the global no-regularization index list
             if not (name == "set_curvature_matrix" and r[1] == "IndexError" and not wt0) and not why:
                 why = f"{name} raised {r[1]}"
     filled = {s: getattr(pre, s) for s in SLOTS if getattr(pre, s) is not None}
+    post_coq = cstore(pre, npix)
     # the fresh-value premise: every filled slot holds what a fresh inversion of fit_0's class computes
     ref = aa.Inversion(dataset=ds, linear_obj_list=objs, settings=settings(), preloads=aa.Preloads(use_w_tilde=pre_use_wt))
     def val_of(s):
@@ -603,28 +621,45 @@ def run_sets(inp):
     # fit_0's inversion goes on being used AFTER the preloads were set
     after0 = [observe(inv0, q) for q in inp["reads0_after"]]
     fresh0 = aa.Inversion(dataset=ds, linear_obj_list=objs, settings=settings(), preloads=aa.Preloads(use_w_tilde=pre_use_wt))
-    bad = [q for q, a, b in zip(inp["reads0_after"], after0, [observe(fresh0, q) for q in inp["reads0_after"]]) if not same(a, b)]
+    fresh_after0 = [observe(fresh0, q) for q in inp["reads0_after"]]
+    bad = [q for q, a, b in zip(inp["reads0_after"], after0, fresh_after0) if not same(a, b)]
     if bad and not why: why = f"fit_0.inversion attributes read after set_*: {bad} differ from a fresh inversion"
     # (a data_vector_mapper that fit_0's inversion itself had been given as a preload is the same array: the w-tilde class with a
     #  function object completes it in place, which leaves it a valid preload -- C15_store_stays_consistent)
     allowed0 = {"data_vector_mapper"} if (wt0 and has_f and "data_vector_mapper" in inp["chain"]) else set()
     for s, v in filled.items():
         if fingerprint(v) != fps[s] and s not in allowed0 and not why: why = f"preloaded {s} changed when fit_0.inversion was read after set_*"
+    # the fresh values of the filled slots (specification side of the Coq case)
+    fr = {}
+    for s_ in filled:
+        if s_ == "w_tilde": fr[s_] = new_w_tilde(aa, ds)
+        elif s_ == "data_vector_mapper": fr[s_] = np.array(ref._data_vector_mapper, dtype=float)
+        elif s_ == "curvature_matrix_mapper_diag":
+            r = call_res(lambda: ref._curvature_matrix_mapper_diag)
+            if r[0] == "ok" and r[1] is not None: fr[s_] = np.array(r[1], dtype=float)
+        elif s_ == "log_det_regularization_matrix_term": fr[s_] = float(ref.log_det_regularization_matrix_term)
+        else:
+            v = getattr(ref, s_); fr[s_] = dict(v) if isinstance(v, dict) else np.array(v, dtype=float)
+    fresh_coq = cstore(aa.Preloads(**fr), npix)
+    dvm_loose = bool(wt0 and has_f and "data_vector_mapper" in inp["chain"])
+    CN = {"set_w_tilde_imaging": "SetWt", "set_operated_mapping_matrix_with_preloads": "SetOmm", "set_linear_func_inversion_dicts": "SetLf",
+          "set_curvature_matrix": "SetCurv", "set_regularization_matrix_and_term": "SetReg"}
+    rz = {i for i, _ in raised_idx}
+    coq = (f"(KSet {qm(C)} {orc} {cin0} {own0_coq} {cmdm0} {clist(inp['reads0'])} {cin1} {own1_coq} {cmdm1} "
+           f"{clist([CN[n_] for n_ in inp['setters']])} {clist([cbool(i in rz) for i in range(len(inp['setters']))])} {post_coq} {fresh_coq} "
+           f"{cbool(dvm_loose)} {clist(inp['reads0_after'])} {couts(after0)} {couts(fresh_after0)})")
+    # the history of inversions that use the Preloads object filled by set_*: an ordinary KHist case
     wt_later = wt_chosen(inp, pre.use_w_tilde)
-    allowed = {"data_vector_mapper"} if (wt_later and has_f) else set()
-    n = 0
-    for qs in inp["hist"]:
-        inv = aa.Inversion(dataset=ds, linear_obj_list=objs, settings=settings(), preloads=pre)
-        frs = aa.Inversion(dataset=ds, linear_obj_list=objs, settings=settings())
-        bad = [q for q in qs if not same(observe(inv, q), observe(frs, q))]; n += 1
-        if bad and not why: why = f"inversion {n} with the preloads set by set_*: {bad} differ from the inversion without preloads"
-    for s, v in filled.items():
-        if fingerprint(v) != fps[s] and s not in allowed and not why: why = f"preloaded {s} was modified in place"
+    t = Track(aa, ds, objs, settings, inp, [], pre_use_wt, False)
+    t.pre = pre; t.wt = wt_later; t.open_segment()
+    for qs in inp["hist"]: t.step(qs)
+    t.close_segment()
+    if t.why and not why: why = "with the preloads set by set_*: " + t.why
     if fp_in != input_fingerprints(ds, objs, settings()) and not why: why = "the caller's inputs were modified"
     why = why or defaults_pristine(aa)
     kind = ("sets:" + ("wtilde" if wt0 else "mapping") + ":" + "".join(o["k"] for o in inp["objs"]) + ":fit1=" + kind1
             + (":chain" if inp["chain"] else "") + f":{len(filled)}filled")
-    return {"coq": None, "py_ok": not why, "kind": kind, "nontrivial": nm > 0 and len(filled) > 1,
+    return {"coq": coq, "extra_coq": t.segs, "py_ok": not why, "kind": kind, "nontrivial": nm > 0 and len(filled) > 1,
             "out": {"filled": sorted(filled), "use_w_tilde": pre.use_w_tilde, "raised": raised, "why": why}}
 
 def run_subsets(inp):
